@@ -106,14 +106,30 @@ fn truncate(s: &str) -> String {
     }
 }
 
-/// Token string with *all* whitespace removed.
+/// Token string with the whitespace *between tokens* removed: what stands inside a string literal
+/// (`feature = "rev a"`) is part of the token and is kept.
 fn squash(tokens: &impl ToTokens) -> String {
-    tokens
-        .to_token_stream()
-        .to_string()
-        .chars()
-        .filter(|c| !c.is_whitespace())
-        .collect()
+    let text = tokens.to_token_stream().to_string();
+    let mut out = String::with_capacity(text.len());
+    let (mut in_str, mut escaped) = (false, false);
+    for c in text.chars() {
+        if in_str {
+            out.push(c);
+            if escaped {
+                escaped = false;
+            } else if c == '\\' {
+                escaped = true;
+            } else if c == '"' {
+                in_str = false;
+            }
+        } else if c == '"' {
+            in_str = true;
+            out.push(c);
+        } else if !c.is_whitespace() {
+            out.push(c);
+        }
+    }
+    out
 }
 
 fn show(tokens: &impl ToTokens) -> String {
